@@ -21,10 +21,10 @@ Definition link_info (l : link) : list N :=
 
 Definition chk_port (x : link * N) : bool :=
   let '(l, st) := x in
-  exch_eqb (one_exchange "set_port_state" [("link_descr", link_obj l); arg "state" st] (RBytes [0; 0]))
+  exch_ok "set_port_state" [("link_descr", link_obj l); arg "state" st] (RBytes [0; 0])
            (mkReq 44 14 0 (0 :: link_info l ++ [st])) (Ok PNone)
-  && exch_eqb (one_exchange "get_port_state" [arg "channel_number" (l_ch l); arg "channel_interface" (l_if l)]
-                            (RBytes (0 :: 0 :: link_info l ++ [st])))
+  && exch_ok "get_port_state" [arg "channel_number" (l_ch l); arg "channel_interface" (l_if l)]
+                            (RBytes (0 :: 0 :: link_info l ++ [st]))
               (mkReq 44 15 0 [0; l_ch l + 64 * l_if l]) (Ok (PList [link_obj l; PInt (Z.of_N st)])).
 
 (* every value of each component of the descriptor (all 16 lane sets, 64 channels, 4 interfaces, 16 types,
@@ -55,11 +55,11 @@ Proof. reflexivity. Qed.
 (* ---- signaling class ---- *)
 Definition chk_sig (x : N * N * N) : bool :=
   let '(itf, ch, cl) := x in
-  exch_eqb (one_exchange "set_signaling_class" [arg "interface" itf; arg "channel" ch; arg "signaling_class" cl]
-                         (RBytes [0; 0]))
+  exch_ok "set_signaling_class" [arg "interface" itf; arg "channel" ch; arg "signaling_class" cl]
+                         (RBytes [0; 0])
            (mkReq 44 59 0 [0; ch + 64 * itf; cl]) (Ok PNone)
-  && exch_eqb (one_exchange "get_signaling_class" [arg "interface" itf; arg "channel" ch]
-                            (RBytes [0; 0; ch + 64 * itf; cl]))
+  && exch_ok "get_signaling_class" [arg "interface" itf; arg "channel" ch]
+                            (RBytes [0; 0; ch + 64 * itf; cl])
               (mkReq 44 60 0 [0; ch + 64 * itf]) (Ok (PInt (Z.of_N cl))).
 Definition sig_cases : list (N * N * N) :=
   flat_map (fun itf => map (fun ch => (itf, ch, 5)) (nrange 64)) (nrange 4) ++
@@ -87,11 +87,11 @@ Definition pwr_status (st : N) : pv :=
 Definition chk_pwr (x : N * bool * N * N * N * N) : bool :=
   let '(ch, en, lim, pri, bak, st0) := x in
   let st1 := setbit st0 4 (if en then 1 else 0) in
-  exch_eqb (one_exchange "send_channel_power" [arg "channel" ch; ("enable", PBool en); arg "current_limit" lim;
-                                                arg "primary_pm" pri; arg "backup_pm" bak] (RBytes [0; 0]))
+  exch_ok "send_channel_power" [arg "channel" ch; ("enable", PBool en); arg "current_limit" lim;
+                                                arg "primary_pm" pri; arg "backup_pm" bak] (RBytes [0; 0])
            (mkReq 44 36 0 [0; ch; if en then 5 else 4; 10 * lim; pri; bak])
            (Ok (PObj "SendPowerChannelControl" [("completion_code", PInt 0); ("picmg_identifier", PInt 0)]))
-  && exch_eqb (one_exchange "get_power_channel_status" [arg "start" ch] (RBytes [0; 0; 16; 6; st1]))
+  && exch_ok "get_power_channel_status" [arg "start" ch] (RBytes [0; 0; 16; 6; st1])
               (mkReq 44 37 0 [0; ch; 1]) (Ok (pwr_status st1)).
 Definition pwr_cases : list (N * bool * N * N * N * N) :=
   flat_map (fun lim => [(3, true, lim, 1, 0, 1); (3, false, lim, 1, 2, 1)]) (nrange 26) ++
@@ -116,14 +116,14 @@ Lemma key_of_link l : l_ch l < 64 -> l_if l < 4 ->
   ((l_ch l + 64 * l_if l) / 64 = l_if l) /\ ((l_ch l + 64 * l_if l) mod 64 = l_ch l).
 Proof. intros H1 H2. split; Zify.zify; Z.to_euclidean_division_equations; lia. Qed.
 
-Lemma write_read_port s l st : List.In (l, st) port_cases ->
+Lemma write_read_port s l st : is_supported "set_port_state" = true -> is_supported "get_port_state" = true -> List.In (l, st) port_cases ->
   let s1 := put s (K_PORT, l_if l, l_ch l) (link_info l ++ [st]) in
   exists r1 r2,
     call "set_port_state" [("link_descr", link_obj l); arg "state" st] s = (r1, s1) /\ same r1 (Ok PNone) /\
     call "get_port_state" [arg "channel_number" (l_ch l); arg "channel_interface" (l_if l)] s1 = (r2, s1) /\
     same r2 (Ok (PList [link_obj l; PInt (Z.of_N st)])).
 Proof.
-  intros Hx s1.
+  intros Sw Sr Hx s1.
   pose proof (table1 chk_port port_cases port_table (l, st) Hx) as C. unfold chk_port in C.
   apply andb_true_iff in C as [W R].
   pose proof (table1 port_small port_cases port_cases_small (l, st) Hx) as S. unfold port_small in S. cbn [fst] in S.
@@ -133,17 +133,17 @@ Proof.
   { unfold link_info. cbn [app]. rewrite bmc_set_port, K1, K2. reflexivity. }
   assert (BR : bmc_handle s1 (mkReq 44 15 0 [0; l_ch l + 64 * l_if l]) = (s1, RBytes (0 :: 0 :: link_info l ++ [st]))).
   { rewrite bmc_get_port, K1, K2. unfold s1. rewrite get_put_same. reflexivity. }
-  exact (write_then_read "set_port_state" "get_port_state" _ _ s s1 _ _ _ _ _ _ W BW R BR).
+  exact (write_then_read "set_port_state" "get_port_state" _ _ s s1 _ _ _ _ _ _ Sw Sr W BW R BR).
 Qed.
 
-Lemma write_read_sig s itf ch cl : List.In (itf, ch, cl) sig_cases ->
+Lemma write_read_sig s itf ch cl : is_supported "set_signaling_class" = true -> is_supported "get_signaling_class" = true -> List.In (itf, ch, cl) sig_cases ->
   let s1 := put s (K_SIGCLASS, itf, ch) [cl] in
   exists r1 r2,
     call "set_signaling_class" [arg "interface" itf; arg "channel" ch; arg "signaling_class" cl] s = (r1, s1) /\
     same r1 (Ok PNone) /\
     call "get_signaling_class" [arg "interface" itf; arg "channel" ch] s1 = (r2, s1) /\ same r2 (Ok (PInt (Z.of_N cl))).
 Proof.
-  intros Hx s1.
+  intros Sw Sr Hx s1.
   pose proof (table1 chk_sig sig_cases sig_table (itf, ch, cl) Hx) as C. unfold chk_sig in C.
   apply andb_true_iff in C as [W R].
   pose proof (table1 sig_small sig_cases sig_cases_small (itf, ch, cl) Hx) as S. unfold sig_small in S.
@@ -154,10 +154,10 @@ Proof.
   { rewrite bmc_set_sig, K1, K2, (N.mod_small cl 16 S3). reflexivity. }
   assert (BR : bmc_handle s1 (mkReq 44 60 0 [0; ch + 64 * itf]) = (s1, RBytes [0; 0; ch + 64 * itf; cl])).
   { rewrite bmc_get_sig, K1, K2. unfold s1. rewrite get_put_same. reflexivity. }
-  exact (write_then_read "set_signaling_class" "get_signaling_class" _ _ s s1 _ _ _ _ _ _ W BW R BR).
+  exact (write_then_read "set_signaling_class" "get_signaling_class" _ _ s s1 _ _ _ _ _ _ Sw Sr W BW R BR).
 Qed.
 
-Lemma write_read_power s ch en lim pri bak st0 : List.In (ch, en, lim, pri, bak, st0) pwr_cases ->
+Lemma write_read_power s ch en lim pri bak st0 : is_supported "send_channel_power" = true -> is_supported "get_power_channel_status" = true -> List.In (ch, en, lim, pri, bak, st0) pwr_cases ->
   get s (K_PWRCHST, ch, 0) = [st0] -> get s (K_PMGLOBAL, 0, 0) = [16; 6] ->
   let st1 := setbit st0 4 (if en then 1 else 0) in
   let s1 := put (put s (K_PWRCHST, ch, 0) [st1]) (K_PWRCHCTL, ch, 0) [10 * lim; pri; bak] in
@@ -167,7 +167,7 @@ Lemma write_read_power s ch en lim pri bak st0 : List.In (ch, en, lim, pri, bak,
     same r1 (Ok (PObj "SendPowerChannelControl" [("completion_code", PInt 0); ("picmg_identifier", PInt 0)])) /\
     call "get_power_channel_status" [arg "start" ch] s1 = (r2, s1) /\ same r2 (Ok (pwr_status st1)).
 Proof.
-  intros Hx H1 H2 st1 s1.
+  intros Sw Sr Hx H1 H2 st1 s1.
   pose proof (table1 chk_pwr pwr_cases pwr_table _ Hx) as C. unfold chk_pwr in C. fold st1 in C.
   apply andb_true_iff in C as [W R].
   assert (BW : bmc_handle s (mkReq 44 36 0 [0; ch; if en then 5 else 4; 10 * lim; pri; bak]) = (s1, RBytes [0; 0])).
@@ -177,5 +177,5 @@ Proof.
     rewrite (get_put_other _ _ _ (K_PMGLOBAL, 0, 0)) by discriminate.
     rewrite (get_put_other _ _ _ (K_PMGLOBAL, 0, 0)) by discriminate. rewrite H2.
     rewrite (get_put_other _ _ _ (K_PWRCHST, ch, 0)) by discriminate. rewrite get_put_same. reflexivity. }
-  exact (write_then_read "send_channel_power" "get_power_channel_status" _ _ s s1 _ _ _ _ _ _ W BW R BR).
+  exact (write_then_read "send_channel_power" "get_power_channel_status" _ _ s s1 _ _ _ _ _ _ Sw Sr W BW R BR).
 Qed.
